@@ -19,6 +19,8 @@
 //	           PushOperators and/or a second Dispatch, all of them meeting inside
 //	           Operator.Check on the step that was just finished (rendezvous wrapper)
 //	hb         heartbeat only
+//	hbs        every region heartbeats while a store stream is stuck in Send: the
+//	           commands of all these dispatches are queued together in msgCh
 //	lose       the commands in flight for the region are lost
 //	push       PushOperators
 //	clock      the virtual clock (installed in server/schedule and server/schedule/operator
@@ -202,10 +204,10 @@ func genCase(t *rapid.T) Case {
 	nOps := simkit.IntU(t, 4, 36, "nOps")
 	focused := simkit.Pct(t, 30, "focused")
 	kinds := []string{"build", "build", "build", "exec", "exec", "exec", "exec", "exec", "exec", "exec", "exec",
-		"hb", "hb", "push", "push", "remove", "foreign", "foreign", "foreign", "lose", "add", "clock", "clock", "influence"}
+		"hb", "hb", "push", "push", "remove", "foreign", "foreign", "foreign", "lose", "add", "clock", "clock", "influence", "hbs"}
 	if focused {
 		kinds = []string{"exec", "exec", "exec", "exec", "exec", "exec", "exec", "exec", "exec", "exec", "exec", "exec",
-			"hb", "push", "build", "foreign", "clock", "influence"}
+			"hb", "push", "build", "foreign", "clock", "influence", "hbs"}
 	}
 	region := func() int { return simkit.IntU(t, 0, 3, "r") }
 	add := func(r int) Op {
@@ -232,6 +234,22 @@ func genCase(t *rapid.T) Case {
 				op.D = simkit.Pick(t, []int{3, 3, 5, 5, 2, 6}, "dMerge")
 			}
 			c.Ops = append(c.Ops, op)
+		}
+	} else if n > 1 && simkit.Pct(t, 25, "twins") {
+		// the same request on two regions, executed in lock-step: both operators are at the same step kind at
+		// the same time and their heartbeats are dispatched back to back behind a stalled store stream
+		q := genReq(t)
+		q.Kind = simkit.Pick(t, []string{"handmade", "handmade", "movePeer", "builder", "moveLeader"}, "twinKind")
+		if q.Kind == "handmade" {
+			q.Tmpl = simkit.Pick(t, []int{2, 5, 7, 1}, "twinTmpl")
+		}
+		if q.Kind == "builder" && len(q.Mask) == 0 {
+			q.Mask = []int{2, 0, 0}
+		}
+		q2 := *q
+		c.Ops = append(c.Ops, Op{Kind: "build", R: 0, Req: q}, Op{Kind: "add", R: 0}, Op{Kind: "build", R: 1, Req: &q2}, Op{Kind: "add", R: 1})
+		for k := simkit.IntU(t, 2, 6, "twinRounds"); k > 0; k-- {
+			c.Ops = append(c.Ops, Op{Kind: "exec", R: 0, NoHB: true}, Op{Kind: "exec", R: 1, NoHB: true}, Op{Kind: "hbs"})
 		}
 	} else {
 		c.Ops = append(c.Ops, Op{Kind: "build", R: r0, Req: genReq(t)}, add(r0))
